@@ -228,6 +228,7 @@ class Run:
         self.rc = self.env["RequestCache"]()
         self.stub = self.env["Stub"](self.rc, self)
         self.entries: list[Entry] = []
+        self.owner_settled: set[int] = set()   # ids of tied futures their owner resolved / cancelled itself
         self.out: dict[tuple, Entry] = {}
         self.identities: set[tuple] = set()
         self.all_deadlines: list[float] = []
@@ -311,6 +312,8 @@ class Run:
     def check_futures(self) -> None:
         for e in self.entries:
             for fut, kind, declared in e.futs:
+                if id(fut) in self.owner_settled:
+                    continue      # settled by its owner beforehand: not the cache's to complete any more
                 if e.status == "timedout":
                     if not fut.done() or fut.cancelled():
                         self.fail("R4", "timeout:future", f"{e} timed out but its tied future is "
@@ -407,6 +410,16 @@ class Run:
             cands = [e for e in self.entries if e.status == "out"]
             if cands:
                 self.tie_future(cands[op[1] % len(cands)], op[2])
+        elif kind == "settle":
+            # the owner of a tied future resolves or cancels it itself while the request is still outstanding
+            cands = [(e, f) for e in self.entries if e.status == "out" for f in e.futs if not f[0].done()]
+            if cands:
+                e, (fut, _, _) = cands[op[1] % len(cands)]
+                self.owner_settled.add(id(fut))
+                if op[2]:
+                    fut.cancel()
+                else:
+                    fut.set_result("settled by its owner")
         elif kind == "clear":
             self.op_clear(where)
         elif kind == "readd":
@@ -551,7 +564,7 @@ class Run:
         if where == "on_timeout":
             self.flags.add("pop_in_on_timeout")
         for fut, _, _ in e.futs:
-            if fut.done():
+            if fut.done() and id(fut) not in self.owner_settled:
                 self.fail("R4", "pop:future", f"{e}: tied future is done right after pop")
 
     def unexpected_claim(self, got, p: str, n: int, site: str) -> None:
@@ -827,6 +840,7 @@ def _strategies():
     get = st.tuples(st.sampled_from(["get", "has"]), prefix, st.integers(0, 5), st.integers(0, 1)).map(list)
     retrieve = st.tuples(st.just("retrieve"), prefix, st.integers(0, 5), st.integers(0, 1)).map(list)
     future = st.tuples(st.just("future"), st.integers(0, 30), st.integers(1, 3)).map(list)
+    settle = st.tuples(st.just("settle"), st.integers(0, 30), st.integers(0, 1)).map(list)
     eps = st.sampled_from([-1, 0, 0, 1])
     adv = st.tuples(st.just("adv"), st.integers(0, 5), eps).map(list)
     sleep = st.tuples(st.just("sleep"), st.sampled_from([0, 0.1, 0.4, 0.5, 0.9, 1.0, 4.0, 5.0])).map(list)
@@ -836,7 +850,7 @@ def _strategies():
     rare = st.sampled_from([["clear"], ["shutdown"]])
     readd = st.tuples(st.just("readd"), st.integers(0, 5)).map(list)
     op = st.one_of(add, add, add, addr, pop, popc, popd, popd, popd, retrieve, adv, adv, adv, adv, sleep, at, at, pt, get,
-                   future, rare, readd)
+                   future, future, settle, rare, readd)
     adds = st.lists(st.one_of(add, add, addr), min_size=1, max_size=3)
     # motifs that aim a claim / clear / shutdown at a deadline; single ops fill the space between them
     motif = st.one_of(
@@ -844,6 +858,9 @@ def _strategies():
         st.tuples(adds, adv, st.one_of(popd, popd, rare)).map(lambda t: [*t[0], t[1], t[2]]),
         st.tuples(adds, at, adv).map(lambda t: [*t[0], t[1], t[2]]),
         st.tuples(pt, adds).map(lambda t: [t[0], *t[1]]),
+        # several futures tied to one request, an early one settled by its owner, then the deadline
+        st.tuples(add, st.integers(1, 3), st.integers(1, 3), st.integers(0, 1), adv).map(
+            lambda t: [t[0], ["future", 0, t[1]], ["future", 0, t[2]], ["settle", 0, t[3]], t[4]]),
     )
     return st.lists(motif, max_size=12).map(lambda ms: [o for m in ms for o in m][:40])
 
